@@ -204,16 +204,28 @@ fn draw_and_compare(font: &MonoFont, s: &str, text: bool, bg: bool, ul: u8, st: 
     t.draw(&mut d).unwrap();
     let mut nn = RecN::<C>::new();
     t.draw(&mut nn).unwrap();
-    let n = s.chars().count() as i32;
-    let (cw, sp) = (font.character_size.width as i32, font.character_spacing as i32);
-    let text_w = if n == 0 { 0 } else { n * (cw + sp) - sp };
-    let adv_w = n * (cw + sp);
+    let (cw, sp, chh) = (font.character_size.width as i32, font.character_spacing as i32, font.character_size.height as i32);
     let ulc = deco_color(ul, text, C::UNDER);
     let stc = deco_color(st, text, C::STRIKE);
-    let exp_tw = expected_line(font, s, pos, text, bg, ulc, stc, text_w);
-    let exp_adv = expected_line(font, s, pos, text, bg, ulc, stc, adv_w);
+    // lines: split on \n, the \r of a \r\n line ending belongs to the line break; every other character of a line
+    // (also a \r at its start or in its middle) occupies a cell; lines are drawn in order one character height apart
+    let (mut exp_tw, mut exp_adv) = (Map::new(), Map::new());
+    let nlines = s.split('\n').count();
+    for (li, line) in s.split('\n').enumerate() {
+        let line = if li + 1 < nlines { line.strip_suffix('\r').unwrap_or(line) } else { line };
+        let n = line.chars().count() as i32;
+        let text_w = if n == 0 { 0 } else { n * (cw + sp) - sp };
+        let adv_w = n * (cw + sp);
+        let lp = (pos.0, pos.1 + li as i32 * chh);
+        exp_tw.extend(expected_line(font, line, lp, text, bg, ulc, stc, text_w));
+        exp_adv.extend(expected_line(font, line, lp, text, bg, ulc, stc, adv_w));
+    }
     obs.outcome(&d.map);
     obs.nontrivial_if(!exp_tw.is_empty());
+    // documented on MonoTextStyle::is_transparent: a transparent style draws no pixels
+    if ((text || bg || ul == 2 || st == 2) && style.is_transparent()) || (style.is_transparent() && !d.map.is_empty()) {
+        obs.fail("is_transparent-means-nothing-is-drawn", format!("is_transparent() = {}, {} pixels drawn", style.is_transparent(), d.map.len()));
+    }
     for (name, m) in [("draw_iter-only target", &d.map), ("native target", &nn.map)] {
         if *m != exp_tw && *m != exp_adv {
             obs.fail("glyph-cell-colours-and-decorations", format!("{name}: {}", map_diff(m, &exp_tw)));
@@ -235,6 +247,11 @@ fn check_draw(c: &DrawCase, obs: &mut Obs) {
     obs.class_if(!text && bg, "background-only");
     obs.class_if(c.three, "three-characters");
     draw_and_compare(font, &s, text, bg, ul, st, obs);
+    if c.three {
+        // the same character in a second line that starts with a carriage return (an ordinary unmapped character there)
+        obs.class("line-starting-with-carriage-return");
+        draw_and_compare(font, &format!("{ch}\r\n\r{ch}\rA"), text, bg, ul, st, obs);
+    }
     // unmapped characters render the replacement glyph
     if !mapped && font.glyph_mapping.index(ch) != REPLACEMENT {
         obs.fail("unmapped-renders-replacement-glyph", format!("{}: index({:?}) = {}", c.font, ch, font.glyph_mapping.index(ch)));
@@ -344,7 +361,7 @@ fn custom_cases() -> Vec<CustomCase> {
                 for extra in [0, cw - 1] {
                     for mapping in [0u8, 1] {
                         for deco in 0..16u8 {
-                            for text in ["a", "abQ", "dzyxcba", "", "\u{1F600}b"] {
+                            for text in ["a", "abQ", "dzyxcba", "", "\u{1F600}b", "ab\r\n\rc\n\n\rd\ra"] {
                                 v.push(CustomCase { cw, ch, spacing, glyphs_per_row: gpr, extra, mapping, deco, text: text.into() });
                             }
                         }
@@ -378,7 +395,7 @@ fn run_part(run: &mut Run) {
                 }
                 v
             }, check_mapping);
-            run.sweep_vec("custom-fonts", "synthetic atlases: character sizes {3x4,5x2,8x8,1x1} x glyphs per row {1,4,16} x spacing {0,1,3} x extra atlas columns {0,w-1} x StrGlyphMapping with ranges/closure mapping with replacement index x 16 colour/decoration sets x 5 strings", custom_cases, check_custom);
+            run.sweep_vec("custom-fonts", "synthetic atlases: character sizes {3x4,5x2,8x8,1x1} x glyphs per row {1,4,16} x spacing {0,1,3} x extra atlas columns {0,w-1} x StrGlyphMapping with ranges/closure mapping with replacement index x 16 colour/decoration sets x 6 strings (one with three lines, CR LF and lines starting with a carriage return)", custom_cases, check_custom);
         }
         "draw-a" => run.sweep_vec("glyphs", "every (built-in font, mapped character) plus 9 unmapped characters, single character and 3-character strings, colour/decoration sets (all 16 in thorough, all for unmapped and a rotating subset for mapped in quick)", || draw_cases(tier, &SUBSETS[..7]), check_draw),
         "draw-b" => run.sweep_vec("glyphs", "every (built-in font, mapped character) plus 9 unmapped characters, single character and 3-character strings, colour/decoration sets", || draw_cases(tier, &SUBSETS[7..]), check_draw),
@@ -394,7 +411,7 @@ fn main() {
         assumptions: &["mapping tables are checked for internal consistency and against the atlas geometry, not against the ISO 8859 standards", "with character spacing the decorations may span the text width or the advance width (an existing test pins the latter for transparent text)"],
         parts: |_| vec![PartSpec::new("mapping", "verif"), PartSpec::new("draw-a", "verif"), PartSpec::new("draw-b", "verif")],
         run_part,
-        required_classes: |_| vec!["mapping-per-font", "mapping-full-bmp-scan", "mapped-character", "unmapped-character", "non-bmp-character", "control-character", "decorated", "background-only", "three-characters", "custom-font", "character-spacing", "spacing-with-background", "one-glyph-per-row", "closure-mapping"],
+        required_classes: |_| vec!["mapping-per-font", "mapping-full-bmp-scan", "mapped-character", "unmapped-character", "non-bmp-character", "control-character", "decorated", "background-only", "three-characters", "line-starting-with-carriage-return", "custom-font", "character-spacing", "spacing-with-background", "one-glyph-per-row", "closure-mapping"],
         crash_is_verdict: false,
     })
 }
